@@ -93,3 +93,18 @@ func hexs(b []byte) string {
 	}
 	return fmt.Sprintf("%x", b)
 }
+
+// expMsg is one expected backend message (only the populated fields are compared).
+type expMsg struct {
+	T       byte
+	Tag     string
+	NCols   int
+	Vals    [][]byte
+	Code    string
+	Msg     string
+	Names   []string
+	Fmts    []int16
+	OIDs    []uint32
+	NParams int
+	POIDs   []oid.Oid
+}
